@@ -942,7 +942,7 @@ func CheckC12(h *History) []Violation {
 				v.add("C12", "status", "op=create", op.ID, "create op %d answered %d, expected 201", op.ID, o.Status)
 				return v.list
 			}
-			if o.Ref == "" || !strings.HasSuffix(o.Location, "/"+o.Ref) || !strings.Contains(o.Location, "/chargingdata/") {
+			if o.Ref == "" || !strings.HasSuffix(o.Location, "/"+o.RefWire) || !strings.Contains(o.Location, "/chargingdata/") {
 				v.add("C12", "location", "", op.ID, "create op %d: Location %q", op.ID, o.Location)
 				return v.list
 			}
